@@ -87,13 +87,29 @@ def _run_task(task):
     rng = random.Random(seed)
     out = []
     with tempfile.TemporaryDirectory(prefix="c01_", dir=tlc.scratch()) as d:
-        yml, clen = c10.make_gene(rng, d, kind, delins=False)  # the property names SNPs, insertions, deletions
+        forced = []
+        if kind == "toyov":
+            # overlap witness: a neutral 4-base intronic deletion (*1.004: 180delCGTT) and a function-altering SNP of ANOTHER
+            # allele inside the deleted interval (*9: 182T>A); the depth at 182 must still count the deletion copies
+            txt, _ = gen_reads.toy_yaml(rng.choice("+-"), rng.choice("+-"), seed=rng.randrange(50), patches=[(178, "GACGTTCA")],
+                                        extra_alleles={"1.004": [(180, "delCGTT", "rs180", None)], "9.001": [(182, "T>A", "rs182", "functional")]})
+            yml, clen = os.path.join(d, "toyov.yml"), 20000
+            with open(yml, "w") as f:
+                f.write(txt)
+            forced = [[("1", "1.004"), ("9", "9.001")], [("1", "1.004"), ("1", "1.004"), ("9", "9.001")],
+                      [("1", "1.004"), ("9", "9.001"), ("3", "3.001")], [("9", "9.001"), ("9", "9.001"), ("1", "1.004")]]
+        else:
+            yml, clen = c10.make_gene(rng, d, kind, delins=False)  # the property names SNPs, insertions, deletions
         for genome in ("hg19", "hg38"):
             gene = gen_reads.load_gene(yml, genome)
             if kind == "gendb":
                 db = gen_db.from_yaml(yml)
             for k in range(n):
-                haps, planted = random_genotype(rng, gene)
+                if k < len(forced) and all(a in gene.alleles and mi in gene.alleles[a].minors for a, mi in forced[k]):
+                    planted = list(forced[k])
+                    haps = [("1", sorted(present(gene, a, mi))) + ((True,) if j >= 2 else ()) for j, (a, mi) in enumerate(planted)]
+                else:
+                    haps, planted = random_genotype(rng, gene)
                 rl, depth = rng.choice(READS)
                 bam = os.path.join(d, f"s{genome}{k}.bam")
                 tid = f"{kind}/{seed}/{genome}/{k}"
@@ -104,7 +120,18 @@ def _run_task(task):
                     continue
                 r = pipeline.run_genotype(yml, s["bam"], s["profile_bam"], capture_sample=True, cn_region=s["cn_region"], genome=genome)
                 row = planted_case(tid, gene, r, haps, planted)
+
+                def spans(h1, h2):  # a deletion of copy h1 covers the site of a variant only copy h2 carries
+                    for m in h1[1]:
+                        if m.op.startswith("del") and "ins" not in m.op:
+                            lo, hi = m.pos, m.pos + len(m.op) - 3
+                            if any(lo <= q.pos < hi and q not in h1[1] and not q.op.startswith("ins") and q != m for q in h2[1]):
+                                return True
+                    return False
+
+                overlap = any(spans(a, b) for i, a in enumerate(haps) for j, b in enumerate(haps) if i != j and len(a) > 1 and len(b) > 1)
                 out.append({"tid": tid, "row": row, "rows10": pipeline.trace_rows(r, tid, 0.0), "meta": {
+                    "deletion_of_one_copy_spans_variant_site_of_another_copy": overlap,
                     "gene_yaml": open(yml).read(), "genome": genome, "strand": gene.strand, "pseudogene": bool(gene.pseudogenes),
                     "haps": [[h[0], [str(m) for m in h[1]], bool(len(h) > 2 and h[2])] for h in haps], "planted": planted,
                     "read_len": rl, "depth": depth, "error": r["error"],
@@ -176,6 +203,8 @@ def run(ctx):
     tasks = []
     for i in range(14 if quick else 140):
         tasks.append((rng.randrange(1 << 30), "toy" if i % 2 == 0 else "gendb", 3 if quick else 8))
+    for i in range(2 if quick else 10):
+        tasks.append((rng.randrange(1 << 30), "toyov", 4 if quick else 8))
     runs = [r for out in par.pmap(_run_task, tasks, timeout=600 if quick else 1500,
                                   default=lambda t: [{"tid": f"watchdog/{t[0]}", "skip": "task killed by the watchdog (backend did not terminate)"}])
             for r in out]
@@ -243,7 +272,8 @@ def run(ctx):
             return any(b - a <= 25 for a, b in zip(ps, ps[1:]))
 
         ctx.violation(clause, {"stage": "end-to-end", "clause": clause, "kinds": ",".join(kinds),
-                               "two_indels_within_25bp_on_one_haplotype": any(near_indels(h) for h in m["haps"])}, m,
+                               "two_indels_within_25bp_on_one_haplotype": any(near_indels(h) for h in m["haps"]),
+                               "deletion_of_one_copy_spans_variant_site_of_another_copy": bool(m.get("deletion_of_one_copy_spans_variant_site_of_another_copy"))}, m,
                       f"run {tid}: planted={m['planted']} haps={[(h[0], h[2]) for h in m['haps']]} reads={m['read_len']}x{m['depth']} result={m['result']} err={m['error'][:60]}")
 
 
